@@ -588,8 +588,11 @@ class TcMachine(Machine):
         return PusTc
 
     def inits(self, cfg):
+        # the third start carries sequence flags and a packet version the plain constructor cannot produce (built through
+        # from_sp_header, or decoded): a setter that rebuilds the header from "the usual" values loses them
         return [dict(svc=17, sub=1, apid=0x123, seq=0x234, src=0x55AA, ack=0b1111, data=b"zz"),
-                dict(svc=3, sub=25, apid=1, seq=0, src=0, ack=0b1001, data=b"")]
+                dict(svc=3, sub=25, apid=1, seq=0, src=0, ack=0b1001, data=b""),
+                dict(svc=17, sub=1, apid=0x2AA, seq=0x155, src=0x0102, ack=0b0110, data=b"abc", ver=5, flags=1)]
 
     def menu(self, level):
         t = level == "t"
@@ -609,18 +612,28 @@ class TcMachine(Machine):
         p = model["p"]
         data = bytearray(p["data"]) if p.get("data_ba") else bytes(p["data"])
         cls = self.cls()
+        if "ver" in p:
+            from spacepackets.ccsds.spacepacket import PacketType, SequenceFlags, SpacePacketHeader
+
+            def build():
+                hdr = SpacePacketHeader(PacketType.TC, p["apid"], p["seq"], 0, True, SequenceFlags(p["flags"]), p["ver"])
+                return cls.from_sp_header(hdr, p["svc"], p["sub"], data, p["src"], p["ack"])
+
+            return build, [("app_data", data)]
         return (lambda: cls(p["svc"], p["sub"], apid=p["apid"], app_data=data, seq_count=p["seq"], source_id=p["src"], ack_flags=p["ack"])), [("app_data", data)]
 
     def ref(self, model):
         p = model["p"]
-        return RP.tc(p["svc"], p["sub"], p["apid"], p["seq"], p["src"], p["ack"], bytes(p["data"]))
+        return RP.tc(p["svc"], p["sub"], p["apid"], p["seq"], p["src"], p["ack"], bytes(p["data"]), version=p.get("ver", 0), seq_flags=p.get("flags", 3))
 
     def decode(self, model, raw):
         return self.cls().unpack(raw)
 
     def decoded_ok(self, obj, model):
         u = UP.UNITS["PusTc"]
-        return u.observe(obj) == u.expected(model["p"])
+        exp = list(u.expected(model["p"]))
+        exp[9], exp[10] = model["p"].get("flags", 3), model["p"].get("ver", 0)  # seq_flags, ccsds_version
+        return u.observe(obj) == tuple(exp)
 
     def make_arg(self, attr, spec):
         if attr == "app_data":
